@@ -251,6 +251,7 @@ func (incr *incremental[Obj]) commitStatus() (numErrors int) {
 			numErrors++
 		}
 
+		retryObj := result.original.(Obj)
 		current, exists, err := incr.table.CompareAndSwap(wtxn, result.rev, incr.config.SetObjectStatus(obj, status))
 		if errors.Is(err, statedb.ErrRevisionNotEqual) && exists {
 			// The object had changed. Check if the pending status still carries the same
@@ -263,6 +264,9 @@ func (incr *incremental[Obj]) commitStatus() (numErrors int) {
 			// the changes.
 			currentStatus := incr.config.GetObjectStatus(current)
 			if currentStatus.Kind == StatusKindPending && currentStatus.ID == result.id {
+				// Retry with the object as it now is in the table so that the retry
+				// does not write back the parts changed by others in the meanwhile.
+				retryObj = current
 				current = incr.config.CloneObject(current)
 				current = incr.config.SetObjectStatus(current, status)
 				_, _, err = incr.table.Insert(wtxn, current)
@@ -273,7 +277,7 @@ func (incr *incremental[Obj]) commitStatus() (numErrors int) {
 			// Reconciliation of the object had failed and the status was updated
 			// successfully (object had not changed). Queue the retry for the object.
 			newRevision := incr.table.Revision(wtxn)
-			incr.retries.Add(result.original.(Obj), newRevision, result.rev, false, result.err)
+			incr.retries.Add(retryObj, newRevision, result.rev, false, result.err)
 		}
 	}
 	return
